@@ -508,7 +508,7 @@ impl Prop for C12 {
         }
     }
     fn nontrivial_rule(&self) -> &'static str {
-        "scenario = max_hedged_attempts 1..4 (17-24 attempts completing together in one run of twelve; usize::MAX with eventually succeeding scripts), delay fixed (ms or sub-ms) / zero / immediate / Duration::MAX / per-attempt table (entries may be zero), builder calls in either order with a decoy delay setting, clones that need a warm-up, service built inside another runtime's context, 1-3 concurrent hedged calls, per-attempt (latency, ok|error) vectors from a lattice that makes failures land before/at/after the next hedge instant, clock jumps; the library's spawned attempt tasks run on tokio's FIFO queue, perturbed by seeded yields. Non-trivial: at least two attempts were started for some call. Distinct = distinct event-log digest."
+        "scenario = max_hedged_attempts 1..4 (17-24 attempts completing together in one run of twelve; usize::MAX with eventually succeeding scripts), delay fixed (ms or sub-ms) / zero / immediate / Duration::MAX / per-attempt table (entries may be zero), builder calls in either order with a decoy delay setting, clones that need a warm-up, service built inside another runtime's context, an event listener that blocks the thread for 3-150 ms at the n-th HedgeStarted / PrimaryStarted event, 1-3 concurrent hedged calls, per-attempt (latency, ok|error) vectors from a lattice that makes failures land before/at/after the next hedge instant, clock jumps; the library's spawned attempt tasks run on tokio's FIFO queue, perturbed by seeded yields. Non-trivial: at least two attempts were started for some call. Distinct = distinct event-log digest."
     }
     fn real_components(&self) -> Vec<&'static str> {
         vec!["tower-resilience-hedge (Hedge, HedgeLayer builder, execute_with_hedging)", "tokio::spawn, mpsc, select!, sleep on the paused clock"]
